@@ -667,15 +667,21 @@ Section Histories.
     end.
 
   (** every persisted entry is well-formed for, and brings new transactions to, the chain as
-      it is at that moment *)
+      it is at that moment; a re-executed block replaces an existing height k and is sealed on
+      top of block k-1 *)
+  Definition op_wf (sp : spec) (o : op) : Prop :=
+    match o with
+    | OPersist e => wf_entry hash_hdr root sp e /\ fresh_txs sp e
+    | OReexec e =>
+        let k := h_number (b_hdr (e_blk e)) in
+        1 <= k /\ k <= tlen sp /\ wf_entry hash_hdr root (ttrunc (k - 1) sp) e /\ fresh_txs (ttrunc (k - 1) sp) e
+    | _ => True
+    end.
   Fixpoint hist_wf (full : bool) (ops : list op) (s : cledger) (sp : spec) : Prop :=
     match ops with
     | [] => True
     | o :: r =>
-        match o with
-        | OPersist e => wf_entry hash_hdr root sp e /\ fresh_txs sp e
-        | _ => True
-        end /\
+        op_wf sp o /\
         let '(c, s') := step cfg_fixed full o s in hist_wf full r s' (spec_step o c sp)
     end.
 
@@ -705,15 +711,15 @@ Section Histories.
 
   (** one step preserves the invariant; a refused step changes nothing; the result code is one
       the property allows *)
-  Lemma step_inv full o s sp :
+  Lemma step_base_inv full o s sp :
     inv full s sp ->
-    match o with OPersist e => wf_entry hash_hdr root sp e /\ fresh_txs sp e | _ => True end ->
-    forall c s', step cfg_fixed full o s = (c, s') ->
+    match o with OPersist e => wf_entry hash_hdr root sp e /\ fresh_txs sp e | OReexec _ => False | _ => True end ->
+    forall c s', step_base cfg_fixed full o s = (c, s') ->
       inv full s' (spec_step o c sp) /\ code_ok o c sp = true /\
       (c <> 0 -> s' = s) /\
       (match o with ORollback _ => c = 0 \/ c = 1 \/ c = 2 | _ => c = 0 end).
   Proof.
-    intros [Href [Hwf Hjw]] Hop c s' Hstep. destruct o as [e|t|]; cbn [step] in Hstep.
+    intros [Href [Hwf Hjw]] Hop c s' Hstep. destruct o as [e|t| |e]; cbn [step_base] in Hstep; [| | |contradiction].
     - (* persist *)
       destruct Hop as [He Hf]. assert (Hwf' : wf_spec hash_hdr root (sp ++ [e])) by (constructor; assumption).
       destruct (persist_refines hash_hdr root hash_inj s sp e Href Hwf') as [s1 [E1 [R1 J1]]].
@@ -776,6 +782,35 @@ Section Histories.
       split; [|split; [reflexivity|split; [congruence|reflexivity]]].
       split; [apply reopen_refines; exact Href|]. split; [exact Hwf|].
       intro Hf. subst full. cbn [cl_jw jw_reopen jw_max]. apply Hjw. reflexivity.
+  Qed.
+
+  Lemma step_inv full o s sp :
+    inv full s sp -> op_wf sp o ->
+    forall c s', step cfg_fixed full o s = (c, s') ->
+      inv full s' (spec_step o c sp) /\ code_ok o c sp = true /\
+      (c <> 0 -> s' = s) /\
+      (match o with ORollback _ => c = 0 \/ c = 1 \/ c = 2 | OReexec _ => c = 0 \/ c = 2 | _ => c = 0 end).
+  Proof.
+    intros Hinv Hop c s' Hstep. destruct o as [e|t| |e].
+    - exact (step_base_inv full (OPersist e) s sp Hinv Hop c s' Hstep).
+    - exact (step_base_inv full (ORollback t) s sp Hinv I c s' Hstep).
+    - exact (step_base_inv full OReopen s sp Hinv I c s' Hstep).
+    - (* re-execution = rollback to k-1, then persist *)
+      cbn [op_wf] in Hop. destruct Hop as [Hk1 [Hk2 [He Hf]]]. cbn [step] in Hstep.
+      set (k := h_number (b_hdr (e_blk e))) in *.
+      pose proof Hinv as [Href _]. rewrite (rf_mem _ _ Href), spec_meta_height in Hstep.
+      destruct ((k =? 0) || (tlen sp <? k)) eqn:Eg; [apply orb_true_iff in Eg; lia|].
+      destruct (step_base cfg_fixed full (ORollback (k - 1)) s) as [c1 s1] eqn:E1.
+      destruct (step_base_inv full (ORollback (k - 1)) s sp Hinv I c1 s1 E1) as [Hinv1 [Hok1 [Hfr1 Hc1]]].
+      destruct Hc1 as [Hc1|[Hc1|Hc1]]; subst c1.
+      + cbn [spec_step] in Hinv1. change (firstn (N.to_nat (k - 1)) sp) with (ttrunc (k - 1) sp) in Hinv1.
+        destruct (step_base_inv full (OPersist e) s1 _ Hinv1 (conj He Hf) c s' Hstep) as [Hinv2 [Hok2 [Hfr2 Hc2]]].
+        subst c. cbn [spec_step code_ok N.eqb orb]. fold k.
+        change (firstn (N.to_nat (k - 1)) sp) with (ttrunc (k - 1) sp).
+        split; [exact Hinv2|]. split; [reflexivity|]. split; [congruence|left; reflexivity].
+      + cbn [code_ok N.eqb] in Hok1. cbn in Hok1. lia.
+      + inversion Hstep; subst. cbn [spec_step code_ok]. split; [exact Hinv|]. split; [reflexivity|].
+        split; [reflexivity|right; reflexivity].
   Qed.
 
   Theorem run2_inv full ops : forall s sp,
@@ -933,7 +968,7 @@ Section Clean.
     intros Hinv Hstep Hc.
     destruct (step_inv hash_hdr root hash_inj full (ORollback t) s sp Hinv I c s' Hstep) as [_ [Hok [Hs Hcs]]].
     split; [auto|]. split; [destruct Hcs as [?|[?|?]]; [congruence|auto|auto]|].
-    intro Hf. subst full. cbn [step] in Hstep. destruct Hinv as [Href [Hwf _]].
+    intro Hf. subst full. cbn [step step_base] in Hstep. destruct Hinv as [Href [Hwf _]].
     destruct (tlen sp <? t) eqn:E1.
     - unfold rollback_chain in Hstep. rewrite (rf_mem _ _ Href), spec_meta_height, E1 in Hstep.
       inversion Hstep; subst. split; [reflexivity|lia].
@@ -1178,14 +1213,25 @@ Section TraceTheorem.
   Variable root : list N -> N.
   Hypothesis hash_inj : forall a b, hash_hdr a = hash_hdr b -> a = b.
 
+  Definition op_wf_b (sp : spec) (o : op) : bool :=
+    match o with
+    | OPersist e => wf_entry_b hash_hdr root sp e && fresh_txs_b sp e
+    | OReexec e =>
+        let k := h_number (b_hdr (e_blk e)) in
+        (1 <=? k) && (k <=? tlen sp) && wf_entry_b hash_hdr root (ttrunc (k - 1) sp) e && fresh_txs_b (ttrunc (k - 1) sp) e
+    | _ => true
+    end.
+  Lemma op_wf_b_spec sp o : op_wf_b sp o = true <-> op_wf hash_hdr root sp o.
+  Proof.
+    destruct o; cbn [op_wf_b op_wf]; try tauto.
+    - rewrite andb_true_iff, wf_entry_b_spec, fresh_txs_b_spec. tauto.
+    - cbv zeta. rewrite !andb_true_iff, wf_entry_b_spec, fresh_txs_b_spec, !N.leb_le. tauto.
+  Qed.
   Fixpoint hist_wf_b (full : bool) (ops : list op) (s : cledger) (sp : spec) : bool :=
     match ops with
     | [] => true
     | o :: r =>
-        match o with
-        | OPersist e => wf_entry_b hash_hdr root sp e && fresh_txs_b sp e
-        | _ => true
-        end &&
+        op_wf_b sp o &&
         let '(c, s') := step cfg_fixed full o s in hist_wf_b full r s' (spec_step o c sp)
     end.
 
@@ -1193,12 +1239,11 @@ Section TraceTheorem.
     hist_wf_b full ops s sp = true <-> hist_wf hash_hdr root full ops s sp.
   Proof.
     induction ops as [|o r IH]; intros s sp; cbn [hist_wf_b hist_wf]; [tauto|].
-    rewrite andb_true_iff. destruct (step cfg_fixed full o s) as [c s']. rewrite IH.
-    destruct o; try tauto. rewrite andb_true_iff, wf_entry_b_spec, fresh_txs_b_spec. tauto.
+    rewrite andb_true_iff, op_wf_b_spec. destruct (step cfg_fixed full o s) as [c s']. rewrite IH. tauto.
   Qed.
 
   Fixpoint persists (ops : list op) : nat :=
-    match ops with [] => 0 | OPersist _ :: r => S (persists r) | _ :: r => persists r end.
+    match ops with [] => 0 | OPersist _ :: r | OReexec _ :: r => S (persists r) | _ :: r => persists r end.
 
   Theorem prop_trace_model strict full U ops : forall s sp i,
     inv hash_hdr root full s sp -> hist_wf hash_hdr root full ops s sp ->
@@ -1209,8 +1254,15 @@ Section TraceTheorem.
     cbn [trace_of prop_trace hist_wf] in *. destruct Hwf as [Hop Hrest].
     destruct (step cfg_fixed full o s) as [c s'] eqn:E.
     destruct (step_inv hash_hdr root hash_inj full o s sp Hinv Hop c s' E) as [Hinv' [Hcode _]].
-    assert (Hwfb : match o with OPersist e => true && wf_entry_b hash_hdr root sp e | _ => true end = true).
-    { destruct o; try reflexivity. cbn. apply wf_entry_b_spec. tauto. }
+    assert (Hwfb : match o with
+                   | OPersist e => true && wf_entry_b hash_hdr root sp e
+                   | OReexec e => true && (1 <=? h_number (b_hdr (e_blk e))) && (h_number (b_hdr (e_blk e)) <=? tlen sp)
+                                  && wf_entry_b hash_hdr root (firstn (N.to_nat (h_number (b_hdr (e_blk e)) - 1)) sp) e
+                   | _ => true end = true).
+    { destruct o; try reflexivity.
+      - cbn. apply wf_entry_b_spec. cbn [op_wf] in Hop. tauto.
+      - cbn [op_wf] in Hop. cbv zeta in *. destruct Hop as [H1 [H2 [H3 _]]].
+        rewrite !andb_true_iff, !N.leb_le. repeat split; try assumption. apply wf_entry_b_spec. exact H3. }
     rewrite Hwfb, Hcode. cbn [negb].
     pose proof Hinv' as [Href' [Hwf' _]].
     assert (Hlen : (length (spec_step o c sp) + persists r <= u_kh U)%nat).
@@ -1219,7 +1271,8 @@ Section TraceTheorem.
         + rewrite app_length. cbn. lia.
         + destruct c; [lia|lia].
       - destruct c; cbn; [rewrite firstn_length; lia|lia].
-      - destruct c; lia. }
+      - destruct c; lia.
+      - destruct c; [|lia]. rewrite app_length, firstn_length. cbn. lia. }
     rewrite (observe_expected U s' _ Href').
     assert (Ha : agrees_b U (spec_step o c sp) (expected U (spec_step o c sp)) = true)
       by (apply agrees_b_spec, agrees_expected).
